@@ -76,5 +76,12 @@ def run(ctx):
         ctx.case(key=["inject", r["name"]], nontrivial=True)
         if not r["ok"]:
             ctx.violation("reply-count/" + r["name"], "%s: %s; replies %s" % (r["name"], r["why"], r["replies"]), r)
+    # 5. a locally answered (banned) command pipelined behind forwarded ones
+    bfile2 = os.path.join(ctx.work, "bannedpipe.ndjson")
+    ctx.harness(["c01-bannedpipe", "-out", bfile2], timeout=300)
+    for r in kit.read_ndjson(bfile2):
+        ctx.case(key=["bannedpipe", r["case"]], nontrivial=True)
+        if not r["ok"]:
+            ctx.violation("reply-count/banned-pipe/" + r["case"], "%s: %d replies for %d pipelined requests: %s" % (r["case"], len(r["replies"] or []), r["want"], r["replies"]), r)
     ctx.cov["rule"] = ("behaviours = TLC simulation of PipelineGen (seeded), distinct by event sequence, non-trivial = contains a request "
                        "split over two nodes; random pipelines counted per request; injection cases by name")
